@@ -404,6 +404,8 @@ def seq_cases(rng, n):
         elif t == 2:
             e = "(%s, %d) * %s * %s" % (a, tag, k, rng.choice(["2", "3", "0"]))
         elif t == 3:
+            # the folded slice may drop the tag: no -0.0 here, so that equal keys mean identical values
+            a, b, c = (x if x != "-0.0" else "0.0" for x in (a, b, c))
             e = "(%s, %s, %s, %d)[%s:%s]" % (a, b, c, tag, i, j)
         elif t == 4:
             e = "(%s, %d) + (%s, %s, %d)" % (a, tag, b, c, tag)
